@@ -735,5 +735,374 @@ theorem resume_lands (cfg : W.Cfg) (env : Env) (h : W.History) (p : W.Pos) (hwf 
       rw [hlay] at hb2 ⊢
       exact resume_prefix cfg env p _ _ hlen hreal (good_units cfg env us₂ p _ hu ht ha hm hb2)
 
+/-! ### from a boundary; sufficient conditions -/
+
+theorem unitsFrom_subset (cfg : W.Cfg) (h : W.History) (p : W.Pos) : ∀ u ∈ unitsFrom cfg h p, u ∈ h :=
+  fun _ hu => List.mem_of_mem_drop hu
+
+theorem histRows_unitsFrom (cfg : W.Cfg) (h : W.History) (p : W.Pos) :
+    ∀ c ∈ histRows (unitsFrom cfg h p), c ∈ histRows h := by
+  intro c hc
+  unfold histRows at hc ⊢
+  obtain ⟨u, hu, hcu⟩ := List.mem_flatMap.mp hc
+  exact List.mem_flatMap.mpr ⟨u, unitsFrom_subset cfg h p u hu, hcu⟩
+
+theorem mapper_unitsFrom {env : Env} {h : W.History} (hm : MapperAgrees env h) (cfg : W.Cfg) (p : W.Pos) :
+    MapperAgrees env (unitsFrom cfg h p) :=
+  fun c hc => hm c (histRows_unitsFrom cfg h p c hc)
+
+/-- byte-level fidelity for a replica started at a boundary p -/
+theorem resume_boundary (cfg : W.Cfg) (env : Env) (h : W.History) (p : W.Pos) (hp : p ∈ W.boundaries cfg h)
+    (hwf : WFHistFrom cfg h p) (hm : MapperAgrees env h) :
+    parseEvents env (fun _ => true) (PState.init (posOf p)) ((W.serve cfg h p).map Input.event ++ [Input.closed])
+      = ⟨(W.expected cfg h p).map (toTx env.ext), (W.expected cfg h p).map (toTx env.ext),
+         posOf (W.endPos cfg h p), false, false⟩ :=
+  resume_lands cfg env h p hwf.toWFFrom (lands_of_boundary cfg h p hp hwf.fresh) (mapper_unitsFrom hm cfg p)
+
+/-- the hypotheses of the head-of-log theorem on the whole history (but for the announcements, which are asked from p
+    on only), plus the two conditions on p's file name, give the hypothesis of the resume theorem -/
+theorem wfHistFrom_of_whole (cfg : W.Cfg) (h : W.History) (p : W.Pos)
+    (units : ∀ u ∈ h, UnitOK cfg u)
+    (tables : ∀ c1 ∈ histRows h, ∀ c2 ∈ histRows h, c1.table.id = c2.table.id → c1.table = c2.table)
+    (offsets : ∀ e ∈ W.layout cfg h, e.next < 2 ^ 32)
+    (announced : annOK [] (histRows (unitsFrom cfg h p)))
+    (fileLen : 27 + p.file.length + (if cfg.crc then 4 else 0) < 2 ^ 32)
+    (fresh : (logFiles h).count p.file ≤ 1) : WFHistFrom cfg h p where
+  fileLen := fileLen
+  units := fun u hu => units u (unitsFrom_subset cfg h p u hu)
+  tables := fun c1 h1 c2 h2 => tables c1 (histRows_unitsFrom cfg h p c1 h1) c2 (histRows_unitsFrom cfg h p c2 h2)
+  announced := announced
+  offsets := fun e he => offsets e ((List.dropWhile_sublist _).subset he)
+  fresh := fresh
+
+/-- from the head of the first file everything is served -/
+theorem unitsFrom_head (cfg : W.Cfg) (h : W.History) : unitsFrom cfg h ⟨W.firstFile, 4⟩ = h := by
+  have := unitsFrom_eq cfg [] h ⟨W.firstFile, 4⟩ (by
+    rw [List.nil_append, fromPos_head, layout_eq', List.countP_cons, countP_units]; simp [fdeL])
+  simpa using this
+
+/-- the head-of-log hypothesis `WFHist` is the resume hypothesis at the head of the first file, when that file's name
+    is not reused -/
+theorem wfHistFrom_head (cfg : W.Cfg) (h : W.History) (hwf : WFHist cfg h)
+    (fresh : (logFiles h).count W.firstFile ≤ 1) : WFHistFrom cfg h ⟨W.firstFile, 4⟩ :=
+  wfHistFrom_of_whole cfg h _ hwf.units hwf.tables hwf.offsets (by rw [unitsFrom_head]; exact hwf.announced)
+    (by have : W.firstFile.length = 10 := by decide
+        show 27 + W.firstFile.length + _ < _
+        rw [this]; simp only [Nat.reducePow]; split <;> omega) fresh
+
+/-! ### the split formulation: h = h₁ ++ h₂, p where h₂ starts -/
+
+theorem layout_append (cfg : W.Cfg) (h₁ h₂ : W.History) :
+    W.layout cfg (h₁ ++ h₂) = W.layout cfg h₁ ++
+      W.layoutAux cfg (h₂.flatMap (W.unitEvs cfg)) (logEnd cfg h₁).file (logEnd cfg h₁).offset := by
+  rw [layout_eq', layout_eq', List.flatMap_append, layoutAux_append, List.cons_append]
+  rfl
+
+/-- the first event of a unit is laid out at the current position and marked as a unit start -/
+theorem layoutAux_units_cons (cfg : W.Cfg) (u : W.Unit) (us : List W.Unit) (f : Bytes) (o : Nat) :
+    ∃ e rest, W.layoutAux cfg ((u :: us).flatMap (W.unitEvs cfg)) f o = e :: rest ∧ e.file = f ∧ e.start = o ∧
+      e.unitStart = true := by
+  obtain ⟨e0, es0, hsh, hus, _, _, hrot⟩ := unitEvs_shape cfg u
+  rw [List.flatMap_cons, hsh, List.cons_append]
+  rcases hrot with ⟨hr, _⟩ | ⟨g, hr, _, _⟩
+  · rw [layoutAux_plain _ _ _ _ _ hr]; exact ⟨_, _, rfl, rfl, rfl, hus⟩
+  · rw [layoutAux_rot _ _ _ _ _ g hr]; exact ⟨_, _, rfl, rfl, rfl, hus⟩
+
+/-- when the name of the file h₁ ends in is used once, the master serves from the end of h₁ exactly the layout of h₂ -/
+theorem fromPos_logEnd (cfg : W.Cfg) (h₁ h₂ : W.History) (hf : (logFiles (h₁ ++ h₂)).count (logEnd cfg h₁).file ≤ 1) :
+    W.fromPos (W.layout cfg (h₁ ++ h₂)) (logEnd cfg h₁)
+      = W.layoutAux cfg (h₂.flatMap (W.unitEvs cfg)) (logEnd cfg h₁).file (logEnd cfg h₁).offset := by
+  cases h₂ with
+  | nil =>
+    rw [List.append_nil] at hf ⊢
+    simpa [W.layoutAux] using fromPos_end cfg h₁ hf
+  | cons u us =>
+    obtain ⟨e, rest, hl, h1, h2, _⟩ := layoutAux_units_cons cfg u us (logEnd cfg h₁).file (logEnd cfg h₁).offset
+    have hlay := layout_append cfg h₁ (u :: us)
+    rw [hl] at hlay ⊢
+    have := fromPos_at cfg (h₁ ++ u :: us) _ e rest hlay (by rw [h1]; exact hf)
+    rw [h1, h2] at this
+    exact this
+
+theorem unitsFrom_logEnd (cfg : W.Cfg) (h₁ h₂ : W.History) (hf : (logFiles (h₁ ++ h₂)).count (logEnd cfg h₁).file ≤ 1) :
+    unitsFrom cfg (h₁ ++ h₂) (logEnd cfg h₁) = h₂ :=
+  unitsFrom_eq cfg h₁ h₂ _ (by rw [fromPos_logEnd cfg h₁ h₂ hf, countP_units])
+
+/-- split formulation: the history is h₁ ++ h₂, the replica resumes where h₂ starts; nothing is asked of h₁ but that
+    the name of its last file is used once in the log -/
+theorem resume_split (cfg : W.Cfg) (env : Env) (h₁ h₂ : W.History)
+    (fresh : (logFiles (h₁ ++ h₂)).count (logEnd cfg h₁).file ≤ 1)
+    (fileLen : 27 + (logEnd cfg h₁).file.length + (if cfg.crc then 4 else 0) < 2 ^ 32)
+    (units : ∀ u ∈ h₂, UnitOK cfg u)
+    (tables : ∀ c1 ∈ histRows h₂, ∀ c2 ∈ histRows h₂, c1.table.id = c2.table.id → c1.table = c2.table)
+    (announced : annOK [] (histRows h₂))
+    (offsets : ∀ e ∈ W.layoutAux cfg (h₂.flatMap (W.unitEvs cfg)) (logEnd cfg h₁).file (logEnd cfg h₁).offset,
+      e.next < 2 ^ 32)
+    (hm : MapperAgrees env h₂) :
+    parseEvents env (fun _ => true) (PState.init (posOf (logEnd cfg h₁)))
+        ((W.serve cfg (h₁ ++ h₂) (logEnd cfg h₁)).map Input.event ++ [Input.closed])
+      = ⟨(W.expected cfg (h₁ ++ h₂) (logEnd cfg h₁)).map (toTx env.ext),
+         (W.expected cfg (h₁ ++ h₂) (logEnd cfg h₁)).map (toTx env.ext),
+         posOf (W.endPos cfg (h₁ ++ h₂) (logEnd cfg h₁)), false, false⟩ := by
+  have hus := unitsFrom_logEnd cfg h₁ h₂ fresh
+  have hfp := fromPos_logEnd cfg h₁ h₂ fresh
+  refine resume_lands cfg env _ _ ⟨fileLen, by rw [hus]; exact units, by rw [hus]; exact tables,
+    by rw [hus]; exact announced, by rw [hfp]; exact offsets⟩ ?_ (by rw [hus]; exact hm)
+  unfold Lands
+  rw [hfp]
+  cases h₂ with
+  | nil => simp [W.layoutAux]
+  | cons u us =>
+    obtain ⟨e, rest, hl, _, _, h3⟩ := layoutAux_units_cons cfg u us (logEnd cfg h₁).file (logEnd cfg h₁).offset
+    rw [hl]
+    exact Or.inl h3
+
+/-! ### resuming at the `next` label of a delivered transaction -/
+
+/-- the k-th expected transaction comes from a commit event; the later ones from the events after it -/
+theorem expectedAux_at : ∀ (l : List W.Laid) (cur : W.Pos) (k : Nat) (t : W.ETx), (W.expectedAux l cur)[k]? = some t →
+    ∃ pre e rest cs, l = pre ++ e :: rest ∧ e.tag = .commit cs ∧ t.next = ⟨e.file, e.next⟩ ∧
+      (W.expectedAux l cur).drop (k + 1) = W.expectedAux rest ⟨e.file, e.next⟩
+  | [], _, _, _, h => by simp [W.expectedAux] at h
+  | e :: es, cur, k, t, h => by
+    have other : ∀ cur', W.expectedAux (e :: es) cur = W.expectedAux es cur' →
+        ∃ pre e' rest cs, e :: es = pre ++ e' :: rest ∧ e'.tag = .commit cs ∧ t.next = ⟨e'.file, e'.next⟩ ∧
+          (W.expectedAux (e :: es) cur).drop (k + 1) = W.expectedAux rest ⟨e'.file, e'.next⟩ := by
+      intro cur' heq
+      rw [heq] at h ⊢
+      obtain ⟨pre, e', rest, cs, h1, h2, h3, h4⟩ := expectedAux_at es cur' k t h
+      exact ⟨e :: pre, e', rest, cs, by rw [h1]; rfl, h2, h3, h4⟩
+    cases ht : e.tag with
+    | commit cs =>
+      have heq : W.expectedAux (e :: es) cur
+          = ⟨cur, ⟨e.file, e.next⟩, e.ts, cs⟩ :: W.expectedAux es ⟨e.file, e.next⟩ := by simp [W.expectedAux, ht]
+      rw [heq] at h ⊢
+      cases k with
+      | zero =>
+        simp only [List.getElem?_cons_zero, Option.some.injEq] at h
+        exact ⟨[], e, es, cs, rfl, ht, by rw [← h], by simp⟩
+      | succ k =>
+        simp only [List.getElem?_cons_succ] at h
+        obtain ⟨pre, e', rest, cs', h1, h2, h3, h4⟩ := expectedAux_at es _ k t h
+        exact ⟨e :: pre, e', rest, cs', by rw [h1]; rfl, h2, h3, by simpa using h4⟩
+    | rotateTo f => exact other ⟨f, 4⟩ (by simp [W.expectedAux, ht])
+    | none => exact other cur (by simp [W.expectedAux, ht])
+    | stopThenRotateTo f => exact other cur (by simp [W.expectedAux, ht])
+    | fileHead => exact other cur (by simp [W.expectedAux, ht])
+
+theorem head_layoutAux (cfg : W.Cfg) (es : List W.AEv) (f : Bytes) (o : Nat) (x : W.Laid) (rest : List W.Laid)
+    (h : W.layoutAux cfg es f o = x :: rest) : x.file = f ∧ x.start = o := by
+  cases es with
+  | nil => simp [W.layoutAux] at h
+  | cons a es =>
+    cases hr : rotOf a.tag with
+    | none =>
+      rw [layoutAux_plain _ _ _ _ _ hr] at h
+      rw [← (List.cons.inj h).1]; exact ⟨rfl, rfl⟩
+    | some g =>
+      rw [layoutAux_rot _ _ _ _ _ g hr] at h
+      rw [← (List.cons.inj h).1]; exact ⟨rfl, rfl⟩
+
+theorem laidTag_rot_not_commit {t : W.Tag} {g : Bytes} (h : rotOf t = some g) (cs : List W.Change) :
+    laidTag t ≠ .commit cs := by
+  cases t <;> simp [rotOf, laidTag] at h ⊢
+
+/-- the event after a commit event is laid out right behind it, in the same file -/
+theorem after_commit (cfg : W.Cfg) : ∀ (es : List W.AEv) (f : Bytes) (o : Nat) (pre : List W.Laid) (e e' : W.Laid)
+    (rest : List W.Laid) (cs : List W.Change), W.layoutAux cfg es f o = pre ++ e :: e' :: rest → e.tag = .commit cs →
+    e'.file = e.file ∧ e'.start = e.next
+  | [], f, o, pre, e, e', rest, cs, hl, _ => by simp [W.layoutAux] at hl
+  | a :: es, f, o, pre, e, e', rest, cs, hl, ht => by
+    cases hr : rotOf a.tag with
+    | none =>
+      rw [layoutAux_plain _ _ _ _ _ hr] at hl
+      cases pre with
+      | nil =>
+        simp only [List.nil_append, List.cons.injEq] at hl
+        obtain ⟨he, hl⟩ := hl
+        obtain ⟨h1, h2⟩ := head_layoutAux cfg es f _ e' rest hl
+        rw [← he]; exact ⟨h1, h2⟩
+      | cons x pre' =>
+        simp only [List.cons_append, List.cons.injEq] at hl
+        exact after_commit cfg es f _ pre' e e' rest cs hl.2 ht
+    | some g =>
+      rw [layoutAux_rot _ _ _ _ _ g hr] at hl
+      match pre, hl with
+      | [], hl =>
+        simp only [List.nil_append, List.cons.injEq] at hl
+        rw [← hl.1] at ht
+        exact absurd ht (laidTag_rot_not_commit hr cs)
+      | [x], hl =>
+        simp only [List.cons_append, List.nil_append, List.cons.injEq] at hl
+        rw [← hl.2.1] at ht
+        simp [fakeR] at ht
+      | [x, x2], hl =>
+        simp only [List.cons_append, List.nil_append, List.cons.injEq] at hl
+        rw [← hl.2.2.1] at ht
+        simp [fdeL] at ht
+      | x :: x2 :: x3 :: pre', hl =>
+        simp only [List.cons_append, List.cons.injEq] at hl
+        exact after_commit cfg es g _ pre' e e' rest cs hl.2.2.2 ht
+
+/-- serving from the `next` label of a commit event starts right after it -/
+theorem fromPos_after_commit (cfg : W.Cfg) (h : W.History) (pre : List W.Laid) (e : W.Laid) (rest : List W.Laid)
+    (cs : List W.Change) (hl : W.layout cfg h = pre ++ e :: rest) (ht : e.tag = .commit cs)
+    (hf : (logFiles h).count e.file ≤ 1) : W.fromPos (W.layout cfg h) ⟨e.file, e.next⟩ = rest := by
+  cases rest with
+  | nil =>
+    obtain ⟨z, hz1, hz2⟩ := layout_getLast cfg h
+    rw [hl, List.getLast?_append, List.getLast?_singleton] at hz1
+    simp only [Option.some_or, Option.some.injEq] at hz1
+    subst hz1
+    have hfile : (logEnd cfg h).file = e.file := by rw [← hz2]
+    rw [hz2]
+    exact fromPos_end cfg h (by rw [hfile]; exact hf)
+  | cons e' rest' =>
+    have hadj : e'.file = e.file ∧ e'.start = e.next := by
+      have hl' := hl
+      rw [layout_eq'] at hl'
+      cases pre with
+      | nil =>
+        simp only [List.nil_append, List.cons.injEq] at hl'
+        rw [← hl'.1] at ht
+        simp [fdeL] at ht
+      | cons x pre' =>
+        simp only [List.cons_append, List.cons.injEq] at hl'
+        exact after_commit cfg _ _ _ pre' e e' rest' cs hl'.2 ht
+    have hl2 : W.layout cfg h = (pre ++ [e]) ++ e' :: rest' := by rw [hl]; simp
+    have := fromPos_at cfg h _ e' rest' hl2 (by rw [hadj.1]; exact hf)
+    rw [hadj.1, hadj.2] at this
+    exact this
+
+/-- the transactions expected from the head of the log are the first k+1 of them followed by those expected from the
+    `next` label p of the k-th one, when the name of p's file is used once -/
+theorem expected_concat (cfg : W.Cfg) (h : W.History) (p : W.Pos) (k : Nat)
+    (hk : ((W.expected cfg h ⟨W.firstFile, 4⟩)[k]?).map (·.next) = some p)
+    (hf : (logFiles h).count p.file ≤ 1) :
+    W.expected cfg h ⟨W.firstFile, 4⟩ = (W.expected cfg h ⟨W.firstFile, 4⟩).take (k + 1) ++ W.expected cfg h p := by
+  cases hkt : (W.expected cfg h ⟨W.firstFile, 4⟩)[k]? with
+  | none => rw [hkt] at hk; cases hk
+  | some t =>
+    rw [hkt] at hk
+    simp only [Option.map_some, Option.some.injEq] at hk
+    have hkt' := hkt
+    unfold W.expected at hkt'
+    rw [fromPos_head] at hkt'
+    obtain ⟨pre, e, rest, cs, h1, h2, h3, h4⟩ := expectedAux_at _ _ k t hkt'
+    have hp : p = ⟨e.file, e.next⟩ := by rw [← hk, h3]
+    subst hp
+    have hfp := fromPos_after_commit cfg h pre e rest cs h1 h2 hf
+    have : W.expected cfg h ⟨e.file, e.next⟩ = (W.expected cfg h ⟨W.firstFile, 4⟩).drop (k + 1) := by
+      conv => rhs; unfold W.expected; rw [fromPos_head]
+      rw [h4]
+      unfold W.expected
+      rw [hfp]
+    rw [this, List.take_append_drop]
+
+theorem endPosAux_commit : ∀ (pre : List W.Laid) (e : W.Laid) (rest : List W.Laid) (cs : List W.Change) (cur : W.Pos),
+    e.tag = .commit cs → W.endPosAux (pre ++ e :: rest) cur = W.endPosAux rest ⟨e.file, e.next⟩
+  | [], e, rest, cs, cur, ht => by simp [W.endPosAux, ht]
+  | x :: pre, e, rest, cs, cur, ht => by
+    rw [List.cons_append]
+    cases hx : x.tag <;> simp only [W.endPosAux, hx] <;> exact endPosAux_commit pre e rest cs _ ht
+
+/-- … and both runs end at the same position -/
+theorem endPos_concat (cfg : W.Cfg) (h : W.History) (p : W.Pos) (k : Nat)
+    (hk : ((W.expected cfg h ⟨W.firstFile, 4⟩)[k]?).map (·.next) = some p)
+    (hf : (logFiles h).count p.file ≤ 1) :
+    W.endPos cfg h ⟨W.firstFile, 4⟩ = W.endPos cfg h p := by
+  cases hkt : (W.expected cfg h ⟨W.firstFile, 4⟩)[k]? with
+  | none => rw [hkt] at hk; cases hk
+  | some t =>
+    rw [hkt] at hk
+    simp only [Option.map_some, Option.some.injEq] at hk
+    unfold W.expected at hkt
+    rw [fromPos_head] at hkt
+    obtain ⟨pre, e, rest, cs, h1, h2, h3, _⟩ := expectedAux_at _ _ k t hkt
+    have hp : p = ⟨e.file, e.next⟩ := by rw [← hk, h3]
+    subst hp
+    have hfp := fromPos_after_commit cfg h pre e rest cs h1 h2 hf
+    unfold W.endPos
+    rw [fromPos_head, hfp, h1]
+    exact endPosAux_commit pre e rest cs _ h2
+
+/-! ### the length of p's file name, from the well-formedness of the whole history -/
+
+theorem adv_file_mem (cfg : W.Cfg) : ∀ (es : List W.AEv) (f : Bytes) (o : Nat), (adv cfg es f o).1 ∈ f :: tgts es
+  | [], f, o => by simp [adv]
+  | a :: es, f, o => by
+    cases hr : rotOf a.tag with
+    | none =>
+      simp only [adv, hr, tgts]
+      exact adv_file_mem cfg es f _
+    | some g =>
+      simp only [adv, hr, tgts]
+      exact List.mem_cons_of_mem _ (adv_file_mem cfg es g _)
+
+/-- the file of a boundary is one of the files of the log -/
+theorem boundary_file_mem (cfg : W.Cfg) (h : W.History) (p : W.Pos) (hp : p ∈ W.boundaries cfg h) :
+    p.file ∈ logFiles h := by
+  unfold logFiles
+  rw [← tgts_units cfg h]
+  rcases mem_boundaries cfg h p hp with ⟨e, he, _, rfl⟩ | rfl
+  · rw [layout_eq'] at he
+    rcases List.mem_cons.mp he with rfl | he
+    · exact List.mem_cons_self
+    · rcases mem_layoutAux cfg _ _ _ e he with ⟨h1, _⟩ | h1
+      · rw [show (⟨e.file, e.start⟩ : W.Pos).file = e.file from rfl, h1]; exact List.mem_cons_self
+      · exact List.mem_cons_of_mem _ h1
+  · exact adv_file_mem cfg _ _ _
+
+/-- every ROTATE / restart target of a well-formed history is short enough for the artificial ROTATE naming it -/
+theorem short_targets (cfg : W.Cfg) : ∀ (us : List W.Unit) (f : Bytes) (o : Nat), (∀ u ∈ us, UnitOK cfg u) →
+    Bnd (W.layoutAux cfg (us.flatMap (W.unitEvs cfg)) f o) →
+    ∀ g ∈ us.flatMap rotTarget, 27 + g.length + (if cfg.crc then 4 else 0) < 2 ^ 32
+  | [], _, _, _, _, g, hg => by simp at hg
+  | u :: us, f, o, hu, hb, g, hg => by
+    rw [List.flatMap_cons, layoutAux_append] at hb
+    have ih := short_targets cfg us _ _ (fun x hx => hu x (List.mem_cons_of_mem _ hx))
+      (fun e he => hb e (List.mem_append_right _ he))
+    rw [List.flatMap_cons, List.mem_append] at hg
+    rcases hg with hg | hg
+    · have huo := hu u List.mem_cons_self
+      cases u with
+      | rotate g' =>
+        -- ROTATE: its own event names the file and ends below 2^32
+        simp only [rotTarget, List.mem_cons, List.not_mem_nil, or_false] at hg
+        subst hg
+        have hmem : hereOf cfg ⟨4, W.rotateBody 4 g, 0, .rotateTo g, true⟩ f o
+            ∈ W.layoutAux cfg (W.unitEvs cfg (.rotate g)) f o := by
+          simp only [W.unitEvs, W.markStart]
+          rw [layoutAux_rot _ _ _ _ _ g rfl]
+          exact List.mem_cons_self
+        have hlt := hb _ (List.mem_append_left _ hmem)
+        have hlen : (W.rotateBody 4 g).length = 8 + g.length := by simp [W.rotateBody]
+        have hcn : crcN cfg o = if cfg.crc then 4 else 0 := by
+          unfold crcN W.crcOf Props.C16.crcLen
+          cases cfg.crc <;> simp
+        simp only [hereOf, endOf, hlen, hcn] at hlt
+        omega
+      | restart g' =>
+        -- restart: UnitOK bounds the name
+        simp only [rotTarget, List.mem_cons, List.not_mem_nil, or_false] at hg
+        subst hg
+        have : _ < 2 ^ 31 := huo
+        simp only [Nat.reducePow] at this ⊢
+        split <;> omega
+      | _ => simp [rotTarget] at hg
+    · exact ih g hg
+
+/-- … so the artificial ROTATE naming the file of any boundary fits -/
+theorem fileLen_of_whole (cfg : W.Cfg) (h : W.History) (p : W.Pos) (hp : p ∈ W.boundaries cfg h)
+    (units : ∀ u ∈ h, UnitOK cfg u) (offsets : ∀ e ∈ W.layout cfg h, e.next < 2 ^ 32) :
+    27 + p.file.length + (if cfg.crc then 4 else 0) < 2 ^ 32 := by
+  have hm := boundary_file_mem cfg h p hp
+  unfold logFiles at hm
+  rcases List.mem_cons.mp hm with h1 | h1
+  · have : W.firstFile.length = 10 := by decide
+    rw [h1, this]; simp only [Nat.reducePow]; split <;> omega
+  · rw [layout_eq'] at offsets
+    exact short_targets cfg h _ _ units (bnd_cons offsets).2 _ h1
+
 end C01d
 end GV
